@@ -561,32 +561,45 @@ impl ScionPath {
                     })
                     .collect();
 
-                // One link type per inter-AS link, stored at the even (egress) interfaces.
-                rpc_path.link_type = if_meta
+                // One link type per inter-AS link, stored at the even (egress) interfaces. Only
+                // emitted if link types are known at all, so that their absence is preserved.
+                if if_meta
                     .iter()
-                    .step_by(2)
-                    .map(|meta| {
-                        match &meta.link {
-                            Some(LinkMeta::Egress(link_type)) => link_type.to_i32(),
-                            _ => LinkType::Unset.to_i32(),
-                        }
-                    })
-                    .collect();
+                    .any(|meta| matches!(meta.link, Some(LinkMeta::Egress(_))))
+                {
+                    rpc_path.link_type = if_meta
+                        .iter()
+                        .step_by(2)
+                        .map(|meta| {
+                            match &meta.link {
+                                Some(LinkMeta::Egress(link_type)) => link_type.to_i32(),
+                                _ => LinkType::Unset.to_i32(),
+                            }
+                        })
+                        .collect();
+                }
 
                 // One internal hop count per intra-AS link, stored at the odd (ingress) interfaces
-                // except the last one, which is the destination.
-                rpc_path.internal_hops = if_meta
+                // except the last one, which is the destination. Only emitted if known at all.
+                if if_meta
                     .iter()
-                    .skip(1)
-                    .step_by(2)
-                    .take((if_meta.len() / 2).saturating_sub(1))
-                    .map(|meta| {
-                        match &meta.link {
-                            Some(LinkMeta::Ingress { internal_hop_count }) => *internal_hop_count,
-                            _ => 0,
-                        }
-                    })
-                    .collect();
+                    .any(|meta| matches!(meta.link, Some(LinkMeta::Ingress { .. })))
+                {
+                    rpc_path.internal_hops = if_meta
+                        .iter()
+                        .skip(1)
+                        .step_by(2)
+                        .take((if_meta.len() / 2).saturating_sub(1))
+                        .map(|meta| {
+                            match &meta.link {
+                                Some(LinkMeta::Ingress { internal_hop_count }) => {
+                                    *internal_hop_count
+                                }
+                                _ => 0,
+                            }
+                        })
+                        .collect();
+                }
 
                 // collect notes if available, must be one per AS (total_interfaces / 2 + 1)
                 let expected_count_ases = if_meta.len() / 2 + 1;
